@@ -138,7 +138,10 @@ def make_source_direct(R, rng, d, i, force=None):
         key = f"{2 ** k}mm"
         scales.append({"key": key, "size": sz, "chunk_sizes": [cs], "encoding": "raw",
                        "resolution": [10 ** 6 * 2 ** k] * 3, "voxel_offset": [0, 0, 0]})
-        if dt == "float32" and force and force.get("huge"):
+        if dt == "float32" and force and force.get("special"):
+            pool = [float("nan"), float("inf"), float("-inf"), -0.0, 0.0, 1e-45, -1e-40, 3.4028234663852886e38, 1.5, -2.25]
+            a = np.array([rng.choice(pool) for _ in range(nch * sz[0] * sz[1] * sz[2])], dtype=dt)
+        elif dt == "float32" and force and force.get("huge"):
             pool = [4294967040.0, 2.0 ** 32, 1e12, 2.0 ** 63, 2.0 ** 64, 3e19, float("inf"), 65535.5, 7.5, 255.5]
             a = np.array([rng.choice(pool) for _ in range(nch * sz[0] * sz[1] * sz[2])], dtype=dt)
         elif dt == "float32":
@@ -148,6 +151,8 @@ def make_source_direct(R, rng, d, i, force=None):
             a = np.array([1 + rng.randrange(hi) for _ in range(nch * sz[0] * sz[1] * sz[2])], dtype=dt)
         a = a.reshape(nch, sz[2], sz[1], sz[0])
         a[:, sz[2] // 2:, :, :] = 0            # half of the volume is background
+        if dt == "float32" and force and force.get("special"):
+            a[:, :cs[2], :cs[1], :cs[0]] = np.nan      # one chunk holds nothing but NaN (outside the field of view)
         levels[key] = a
         os.makedirs(os.path.join(out, key))
         extra_cs = None
@@ -238,6 +243,22 @@ def run(R):
         src_dir, info, src_acc, src_kind, src_scales = make_source_direct(R, rng, d, w, force)
         _convert(R, rng, d, 0, src_dir, info, src_acc, src_kind, src_scales, force)
         R.count("dest:float32-top-of-range->" + dst_dtype)
+    # float32 -> float32 must be bit-exact, NaN, infinities, negative zero and denormals included
+    for w in range(2):
+        d = os.path.join(R.tmp, f"special{w}")
+        os.makedirs(d)
+        force = {"size": (5, 4, 6), "chunk": (4, 4, 4), "dtype": "float32", "special": True,
+                 "dst_kind": ["deep-gz", "flat"][w], "dst_dtype": "float32"}
+        src_dir, info, src_acc, src_kind, src_scales = make_source_direct(R, rng, d, w, force)
+        _convert(R, rng, d, 0, src_dir, info, src_acc, src_kind, src_scales, force)
+        R.count("dest:float32-special-values-bit-exact")
+    # a sharded destination spread over 128 shard files (16x4x4 chunks, two chunks per shard, visited far apart)
+    d = os.path.join(R.tmp, "manyshards")
+    os.makedirs(d)
+    force = {"size": (32, 8, 8), "chunk": (2, 2, 2), "sharding": (0, 7, 0), "dst_kind": "sharded"}
+    src_dir, info, src_acc, src_kind, src_scales = make_source_direct(R, rng, d, 0, force)
+    _convert(R, rng, d, 0, src_dir, info, src_acc, src_kind, src_scales, force)
+    R.count("dest:sharded-128-shard-files")
     n = 24 if R.tier == "quick" else 500
     for i in range(n):
         d = os.path.join(R.tmp, f"c{i}")
@@ -410,8 +431,12 @@ def _convert(R, rng, d, j, src_dir, info, src_acc, src_kind, src_scales, force=N
         return o_r(self, scale_key, chunk_coords)
     if inproc:
         precomputed_io.PrecomputedIO.write_chunk, precomputed_io.PrecomputedIO.read_chunk = spy_w, spy_r
+    dst_url = dst
+    if not dst_kind.startswith("sharded") and _convert.counter % 5 == 0:
+        dst_url = "precomputed://" + os.path.abspath(dst)      # the prefix followed by a plain pathname
+        R.count("dest-url:precomputed://<absolute path>")
     try:
-        rc, so, se = pipeline.run_script("convert_chunks", ([src_url, dst] + (["--copy-info"] if copy_info else []) + opts),
+        rc, so, se = pipeline.run_script("convert_chunks", ([src_url, dst_url] + (["--copy-info"] if copy_info else []) + opts),
                                          inprocess=inproc)
     finally:
         precomputed_io.PrecomputedIO.write_chunk, precomputed_io.PrecomputedIO.read_chunk = o_w, o_r
